@@ -32,6 +32,18 @@ CHECKS = {
  'C17': dict(text='kingdon.polynomial modelled operation by operation (merge addition, factor-merge multiplication, shortcuts of RationalPolynomial, addition-chain powers); proved for ALL stored inputs: evaluation into any commutative ring / field is a homomorphism for add, sub, neg, mul, pow, rational add/sub/mul/div/inv; == and the zero tests are sound; normal forms are preserved and on them the zero tests are exact. Tie: enumerated and seeded operator programs on the real classes vs. the model with literal comparison of the args structure, plus denotation of every intermediate value in an independent free ring.',
              note='integer coefficients only (python floats are outside the model); programs are well typed',
              tech='Lean 4 proof (evaluation homomorphism, normal forms) + structural differential testing', ref='6/C17'),
+ 'C11': dict(text='MultiVector and TapeRecorder are two implementations of one operator surface; their dispatch tables (method -> operator, operand order; dual/undual kind selection per r; plain-number operands) are re-extracted from the source by behavioural probing on every run and proved to agree by decide; registered = direct is proved by induction over expression trees for arbitrary agreeing tables. Tie/oracle: generated python functions over the documented surface evaluated as f(args), register(f)(args) and register(symbolic=True)(f)(args), incl. same-named closures and nested registered calls.',
+             note='open findings F17/F18 (symbolic route: coefficient access, sqrt/norm raise) and F19 (two registered functions sharing __name__) are listed in known_findings.json; pow/grade/coefficient nodes are covered by the differential run, not by the tree theorem',
+             tech='Lean 4: decide over tables regenerated from source + tree induction; three-route differential evaluation', ref='6/C11'),
+ 'C14': dict(text='The relabelling map e_K -> eps_K e_K is proved to be an involutive ring homomorphism from every admissible custom-basis algebra onto the default-basis algebra of the bit-ordered signature (from the twist theorem); default bases are untwisted; the named bases are re-extracted and proved admissible; the equality probe table shows metric/basis differences are distinguished. Tie: eps_K and the bit-ordered signature of the model vs. values obtained from generator products on the real default-basis algebra; oracle: every operator, accessor spelling, matrix representation and the rejection clause through the map with tracer coefficients.',
+             note='Hodge/regressive/polarity commute up to the orientation sign of the custom pseudoscalar; start index alone is a renaming (repository test requires it)',
+             tech='Lean 4 proof (isomorphism from the twist theorem) + relabelled differential runs', ref='6/C14'),
+ 'C16': dict(text='_call_binary modelled as a structural recursion over operand trees; proved: operand order kept, numbers become scalars, callables are replaced by their value at any depth, sequences map in order; the reflected-method table is re-extracted from source and checked by decide. Tie: operand trees on the real code vs. the model (each named operator application re-evaluated with plain operands). Oracle: indexing commutes with every operator for three trailing shapes, ndarray and list-of-arrays containers, int/slice/tuple/list indices; __setitem__ and itermv.',
+             note='numpy element-wise semantics and indexing are trusted',
+             tech='Lean 4 proof over operand trees + decide over regenerated table + array differential runs', ref='6/C16'),
+ 'C20': dict(text='encode/walker, the front-end decoding and the drag handler are modelled; proved by induction over subject trees of any depth: decode(encode(t)) yields exactly the coefficient vectors of the reachable multivectors (array-valued ones expanded), key2idx is a bijection, a drag overwrites exactly the stored coefficients of the addressed subject. Tie: real GraphWidget payloads vs. the model text; oracle: the payload is decoded by the actual toElement/decode lines of graph.js under node and compared with the true coefficients; drag sequences on several subjects sharing blades.',
+             note='traitlets, buffer transport and everything in the browser beyond toElement/decode are trusted',
+             tech='Lean 4 proof (tree induction) + payload correspondence + front-end code executed under node', ref='6/C20'),
 }
 NOT_YET = 'check not built yet in this round (design in DESIGN.md section 6); not claimed until it runs green on the unchanged tree'
 
